@@ -69,3 +69,19 @@ impl Serializable for U24nU8 {
         u32::serialized_bytes()
     }
 }
+
+/// Verification hooks (never compiled without `--cfg daachorse_verif`).
+#[cfg(daachorse_verif)]
+impl U24nU8 {
+    /// Builds the packed word from its raw representation.
+    #[doc(hidden)]
+    pub const fn verif_from_u32(x: u32) -> Self {
+        Self(x)
+    }
+
+    /// Returns the raw representation of the packed word.
+    #[doc(hidden)]
+    pub const fn verif_to_u32(self) -> u32 {
+        self.0
+    }
+}
